@@ -145,6 +145,7 @@ fam(EnumFamily('idle_enum', ('C15',), gen.idle_base, gen.idle_derive, 16, 250, 4
 fam(ScenarioFamily('history_deep', BUS_PROPS, gen.history_deep_scenario, 300, 4000))
 fam(EnumFamily('stop_enum', ('C16', 'C05', 'C06'), gen.stop_base, gen.stop_derive, 12, 200, 40, 150))
 fam(EnumFamily('cancel_enum', ('C16',), gen.stop_base, gen.cancel_derive, 6, 80, 30, 100))
+fam(ScenarioFamily('gather', ('C04',), gen.gather_scenario, 300, 3000))
 fam(ScenarioFamily('late_on', ('C01', 'C09', 'C11', 'C03'), gen.late_on_scenario, 300, 3000))
 fam(EnumFamily('waitfor_enum', ('C15',), gen.waitfor_base, gen.waitfor_derive, 16, 200, 40, 120))
 fam(EnumFamily('timeout_enum', ('C10', 'C08', 'C02', 'C06'), gen.timeout_base, gen.timeout_derive, 24, 250, 40, 150))
@@ -164,6 +165,7 @@ CHECKS['C08'].families.append('timeout_enum')
 CHECKS['C15'].families.append('idle_enum')
 for _p in ('C01', 'C09', 'C11', 'C03'):
     CHECKS[_p].families.append('late_on')
+CHECKS['C04'].families.append('gather')
 CHECKS['C15'].families += ['timeout_enum', 'waitfor_enum']  # 'whatever happened to earlier events': handler timeouts, user-bounded awaits
 for _p in ('C01', 'C03', 'C04', 'C13', 'C15'):
     CHECKS[_p].families.append('history_deep')
@@ -395,4 +397,5 @@ fam(NoLoopFamily())
 CHECKS['C14'].families.append('noloop')
 CHECKS['C14'].families.append('single')
 CHECKS['C14'].families.append('shapes')
+CHECKS['C14'].families.append('stop_enum')  # dispatches (from handlers, forwards, top-level code) to a bus that is stopping / stopped
 CHECKS['C14'].floors['c14_noloop_dispatches'] = {'quick': 50, 'thorough': 500}
